@@ -520,6 +520,11 @@ def Period.toDuration (p : Period) : R (Int × Int) :=
     | .error x => .error x
     | .ok _ => .ok (p.total / NPD, p.total % NPD)
 
+/-! ## evaluated side conditions of the C09 theorems that are not part of C01's `WF` -/
+
+/-- every year of the calendar has at least 299 days (the ±1-year fast path of day addition relies on it) -/
+def yearLenCheck (c : Calc) : Bool := allInts c.minYear c.maxYear (fun y => decide (299 ≤ c.len y))
+
 /-! ## line protocol -/
 
 def showYmd (r : R Ymd) : String := showR (fun p => showInts [p.1, p.2.1, p.2.2]) r
@@ -606,6 +611,7 @@ def handle (toks : List String) : Option String :=
       | [y1, m1, y2, m2] =>
         some (showR showInts (validated k (y1, m1, 1) (validated k (y2, m2, 1) (betweenYearMonths k mask (y1, m1) (y2, m2)))))
       | _ => none
+  | ["date.wf", c] => withCal c fun k => some (showBool (yearLenCheck k.c))
   | "period.normalize" :: rest => do
       let v ← parseInts? rest
       let p ← periodOf v
